@@ -209,12 +209,14 @@ namespace occa {
 
   hash_t kernelHeaderHash(const occa::json &props) {
     // Hash the properties as one object keyed by their names (see
-    // serial::device::kernelHash)
+    // serial::device::kernelHash). The okl settings change the generated
+    // source, so they are part of the key as well
     const char *names[] = {
       "defines",
       "functions",
       "includes",
-      "headers"
+      "headers",
+      "okl"
     };
     occa::json keyProps;
     keyProps.asObject();
